@@ -158,6 +158,14 @@ def buildArrays (ext : Ext) (root : B) : R (List Arr × B) :=
     pure (cols.toList.map (·.2), takeRest root)
   | _ => panic "root builder is not a struct"
 
+/-- `Serializer<&mut ArrayBuilder>` (serializer.rs): a sequence / tuple / tuple struct / tuple variant of records,
+through newtype wrappers; every element goes through `ArrayBuilder::push` -/
+def serializeWith (ext : Ext) (root : B) : SVal → R B
+  | .newtypeStruct _ v => serializeWith ext root v
+  | .newtypeVariant _ _ _ v => serializeWith ext root v
+  | .seq xs | .tuple xs | .tupleStruct _ xs | .tupleVariant _ _ _ xs => extend.pushAll ext root xs
+  | x => fail s!"Serializer expects a sequence of records, not a single {x.kind}"
+
 /-- the builder state after all rows have been pushed (before `build_arrays`) -/
 def runRows (ext : Ext) (fields : List Field) (rows : List SVal) : R B := do
   let root ← newRoot fields
